@@ -67,6 +67,21 @@ pm *
         ~
 """, [S(["pm k1"], [PB(["cl 1", "cl 2", "cl 3"], [S(["s 1", "s 2"])] + ([] if rt.TIER == "quick" else [S(["p"])]),
                         maxlen=3 if rt.TIER == "quick" else 2)])]),
+    # a rule compared case-insensitively beside ordinary rules whose rows carry upper-case letters
+    "D5": ("""
+ic ~ %ignore_case
+description ~
+b *
+    ic ~ %ignore_case
+    name ~
+""", [S(["ic x"]), S(["description UPLINK", "description uplink", "description Uplink B"]),
+      S(["b k1"], [S(["ic y"]), S(["name Core", "name core"])])]),
+    # %rewrite bodies below %ordered block rows
+    "D6": ("""
+pm *
+    cl * %ordered
+        ~ %rewrite
+""", [S(["pm k1"], [PB(["cl 1", "cl 2", "cl 3"], [P(["s 1", "s 2"])], maxlen=2 if rt.TIER == "quick" else 3)])]),
 }
 FAM = os.environ.get("VT_FAM", "D1")
 TEXT, SLOTS = FAMS[FAM]
@@ -424,7 +439,7 @@ def h_twin(case: int) -> bool:
 def plan(tier):
     q = tier == "quick"
     obs = []
-    for f, sh in (("D1", 16), ("D2", 12), ("D3", 6), ("D4", 12)):
+    for f, sh in (("D1", 16), ("D2", 12), ("D3", 6), ("D4", 12), ("D5", 2), ("D6", 8)):
         obs.append(dict(name="diff.%s" % f, func="h_diff", shards=sh if q else sh * 2, timeout=280 if q else 2400, env={"VT_FAM": f}))
     obs.append(dict(name="twin", func="h_twin", shards=1, timeout=100, expect="refuted", env={"VT_FAM": "D2"}))
     return obs
